@@ -2,10 +2,10 @@
 import json
 
 PLAN = {
-    'C01': ['harness.fe_typeargs', 'harness.fe_defaults', 'harness.fe_examples', 'harness.fe_docrefs', 'harness.fe_attrs', 'harness.c11_layout'],
-    'C02': ['harness.fe_typeargs', 'harness.fe_defaults', 'harness.fe_examples', 'harness.fe_attrs'],
-    'C03': ['harness.fe_typeargs', 'harness.fe_defaults', 'harness.fe_examples', 'harness.fe_docrefs', 'harness.fe_attrs'],
-    'C10': ['harness.fe_defaults', 'harness.fe_examples'],
+    'C01': ['harness.fe_typeargs', 'harness.fe_defaults', 'harness.fe_examples', 'harness.fe_docrefs', 'harness.fe_attrs', 'harness.fe_names', 'harness.c11_layout'],
+    'C02': ['harness.fe_typeargs', 'harness.fe_defaults', 'harness.fe_examples', 'harness.fe_attrs', 'harness.c02_units'],
+    'C03': ['harness.fe_typeargs', 'harness.fe_defaults', 'harness.fe_examples', 'harness.fe_docrefs', 'harness.fe_attrs', 'harness.fe_names', 'harness.c03_units'],
+    'C10': ['harness.fe_defaults', 'harness.fe_examples', 'harness.c10_emit'],
     'C04': ['harness.c04_roundtrip'],
     'C05': ['harness.c04_roundtrip'],
     'C06': ['harness.c06_decoder'],
